@@ -85,25 +85,6 @@ pub open spec fn pair_flush(a: PairAcc) -> Map<String, AVal> {
     }
 }
 
-/// A `String` with the given content (uninterpreted inverse of the view; A-string-ext makes it unique).
-pub uninterp spec fn str_of(s: Seq<char>) -> String;
-
-pub broadcast axiom fn axiom_str_of(s: Seq<char>)
-    ensures (#[trigger] str_of(s))@ == s;
-
-/// `str_of` inverts the view (from A-string-ext and the axiom above)
-pub broadcast proof fn lemma_str_of_view(k: String)
-    ensures #[trigger] str_of(k@) == k,
-{
-    axiom_str_of(k@);
-    axiom_string_ext(str_of(k@), k);
-}
-
-pub broadcast group group_ipp_machine {
-    axiom_str_of,
-    lemma_str_of_view,
-}
-
 /// walk the first `n` values found between begCollection and endCollection: a memberAttrName value
 /// begins a member, the values up to the next memberAttrName are that member's values
 pub open spec fn pair_fold(vals: Seq<AVal>, n: nat) -> PairAcc
